@@ -199,6 +199,42 @@ func c04Cells(w *Worker) {
 			return true
 		})
 	}
+	// mixfix rules: two (three) precedence-bearing terminals in ONE rule, every assignment of the
+	// terminals to up to three levels and every associativity (no %prec variations)
+	mix := []*gram.Spec{
+		{Start: "E", Tokens: []gram.TokDecl{{Name: "TA"}}, Rules: []gram.Rule{{L: "E", R: []string{"E", "'?'", "E", "':'", "E"}}, {L: "E", R: []string{"E", "'+'", "E"}}, {L: "E", R: []string{"TA"}}}},
+		{Start: "E", Tokens: []gram.TokDecl{{Name: "TA"}}, Rules: []gram.Rule{{L: "E", R: []string{"'?'", "E", "':'", "E"}}, {L: "E", R: []string{"E", "':'", "E"}}, {L: "E", R: []string{"E", "'?'"}}, {L: "E", R: []string{"TA"}}}},
+	}
+	for _, base := range mix {
+		terms := []string{"'?'", "':'", "'+'"}
+		if len(base.Rules) == 4 {
+			terms = terms[:2]
+		}
+		for _, la := range levelAssignments(terms, 3) {
+			na := 1
+			for i := 0; i < la.n; i++ {
+				na *= 3
+			}
+			for ac := 0; ac < na; ac++ {
+				s := &gram.Spec{Start: base.Start, Tokens: base.Tokens, Rules: base.Rules}
+				x := ac
+				for l := 1; l <= la.n; l++ {
+					pl := gram.PrecLevel{Assoc: assocs[x%3]}
+					x /= 3
+					for _, t := range terms {
+						if la.levels[t] == l {
+							pl.Toks = append(pl.Toks, t)
+						}
+					}
+					s.Prec = append(s.Prec, pl)
+				}
+				if w.Mine(idx) {
+					c04OneCellCase(w, &GCase{Origin: "mixfix+prec", Spec: s})
+				}
+				idx++
+			}
+		}
+	}
 	// family grammars with precedence
 	for _, n := range gram.Families() {
 		if len(n.Spec.Prec) > 0 && w.Mine(idx) {
